@@ -911,3 +911,27 @@ def unget_copied_unwrap_or(f):
     if n:
         f.rewrites.append(('R6', f'{n}x `X.get(i).copied().unwrap_or(d)` -> bounds-checked index', ''))
     return f
+
+
+def unhashset_collect(f):
+    """R6/R7: `let NAME: HashSet<T> = SRC.into_iter().collect();` -> `let NAME: Vec<T> = hash_set_order(SRC);` — the set as the sequence of its elements
+    in ITERATION order (each element once, order unspecified); sound for later uses that only iterate NAME.  The unit prelude must provide hash_set_order."""
+    n = 0
+    while True:
+        m = re.search(r'let (mut )?(\w+): (?:hashbrown::|std::collections::)?HashSet<([^>]+)> = ([\w.]+)\s*\.into_iter\(\)\s*\.collect\(\);', f.body)
+        if not m:
+            break
+        f.body = f.body[:m.start()] + f'let {m.group(1) or ""}{m.group(2)}: Vec<{m.group(3)}> = hash_set_order({m.group(4)});' + f.body[m.end():]
+        n += 1
+    if n:
+        f.rewrites.append(('R6', f'{n}x `let s: HashSet<T> = v.into_iter().collect();` -> the set as its elements in (unspecified) iteration order', ''))
+    return f
+
+
+HASH_SET_ORDER_STUB = r'''
+verus! {
+/// the elements of `v` as a hash set would iterate them: each distinct element once, in an order the hash function chooses
+#[verifier::external_body]
+pub fn hash_set_order<T>(v: Vec<T>) -> (r: Vec<T>) ensures r@.no_duplicates(), r@.to_set() == v@.to_set() { unimplemented!() }
+}
+'''
